@@ -60,6 +60,18 @@ def run(report, tier, seed):
                           dtype=numpy.int64, raw=rng.random() < 0.4)
         if rng.random() < 0.25:      # constants
             p = gen.rand_poly(rng, shape, names, nterms=1, maxexp=0, dtype=numpy.int64)
+        if rng.random() < 0.06:
+            # constants that store all-zero non-constant terms (retain_coefficients=True), the constant term somewhere
+            # among them or not stored at all (then the polynomial is zero)
+            size_ = int(numpy.prod(shape)) if shape else 1
+            D_ = len(names)
+            rows_ = list({tuple(rng.choice([0, 1, 2]) for _ in range(D_)) for _ in range(rng.randint(1, 3))} - {(0,) * D_})
+            cols_ = [numpy.zeros(shape, dtype=numpy.int64) for _ in rows_]
+            if rng.random() < 0.6 or not rows_:
+                at = rng.randint(0, len(rows_))
+                rows_.insert(at, (0,) * D_)
+                cols_.insert(at, numpy.array([rng.randint(-3, 3) for _ in range(size_)], dtype=numpy.int64).reshape(shape))
+            p = numpoly.polynomial_from_attributes(rows_, cols_, tuple(f"q{i}" for i in names), retain_coefficients=True, retain_names=True)
         lay = core.poly_layout(p)
         tp = core.coq_parr(lay)
         size = int(numpy.prod(shape)) if shape else 1
@@ -112,6 +124,8 @@ def run(report, tier, seed):
                 note("tonumpy", f"tonumpy raised for the constant {desc}", {"poly": lay})
         except Exception as exc:  # noqa: BLE001
             exp = f"(NErr {core.err_enum(exc)})"
+            if want_const:
+                note("tonumpy", f"tonumpy raised {type(exc).__name__}: {exc} for the constant {desc} (stored exponents {lay['rows']})", {"poly": lay})
         cc.add(f"(zisconstant {tp} == {core.cbool(isc)}) && chk_num (ztonumpy {tp}) {exp}", {"kind": "const", "poly": desc})
         # --- todict --------------------------------------------------------------------------
         td = p.todict()
